@@ -413,10 +413,15 @@ func c11Run(_ *testing.T, c c11Case) (res vfResult) {
 		}
 		if sz == 0 {
 			res.violate("C11/empty-fragment", nfrag, "fragment %d is an empty RPC (size 0)", nfrag)
-		} else if one.elems == 0 && one.emptyIhave == 0 {
-			// an RPC whose only content is an empty control message: not "empty" on the wire (2 bytes) and
-			// the callers themselves build such RPCs (rpcWithControl); recorded, not judged
-			res.label("contentless-fragment")
+		} else if one.elems == 0 && one.emptyIhave == 0 && c11CtlEntries(&frag.RPC) == 0 {
+			// an RPC whose only content is an empty control message (2 bytes on the wire). When the input itself is nothing
+			// but that, the fragment is the input; when the input carries elements, a fragment that carries none is an
+			// empty RPC in the sense of the statement
+			if want.elems+want.emptyIhave > 0 {
+				res.violate("C11/contentless-fragment", nfrag, "fragment %d of %d bytes carries nothing (an empty control message only) although the RPC has %d elements", nfrag, sz, want.elems+want.emptyIhave)
+			} else {
+				res.label("contentless-input")
+			}
 		}
 		if nfrag > 100000 {
 			res.violate("C11/runaway", nfrag, "more than 100000 fragments")
@@ -490,4 +495,18 @@ func vfBucket(n int) string {
 
 func TestVfC11Split(t *testing.T) {
 	vfCheck(t, "C11", c11Gen, c11Run)
+}
+
+// c11CtlEntries counts the entries of the control message whatever they hold (an IWANT without IDs is still an entry of
+// the input, kept or dropped at the splitter's discretion).
+func c11CtlEntries(r *pb.RPC) int {
+	c := r.GetControl()
+	if c == nil {
+		return 0
+	}
+	n := len(c.Ihave) + len(c.Iwant) + len(c.Graft) + len(c.Prune) + len(c.Idontwant)
+	if c.Extensions != nil {
+		n++
+	}
+	return n
 }
